@@ -326,13 +326,82 @@ static __thread Skinny128ParallelECB_t p128[NOBJ];
 static __thread Skinny64ParallelECB_t p64[NOBJ];
 static __thread MantisParallelECB_t pm[NOBJ];
 
+static __thread int objs_masked;
 static void objects_zero(void)
 {
+    objs_masked = 0;
     memset(k128, 0, sizeof k128); memset(k64, 0, sizeof k64);
     memset(t128, 0, sizeof t128); memset(t64, 0, sizeof t64);
     memset(mk, 0, sizeof mk);
     memset(c128, 0, sizeof c128); memset(c64, 0, sizeof c64); memset(cm, 0, sizeof cm);
     memset(p128, 0, sizeof p128); memset(p64, 0, sizeof p64); memset(pm, 0, sizeof pm);
+}
+
+
+/* Writes to caller objects other than the one passed to the call (a handle or
+   key schedule overrun lands in its neighbours): all object arrays are
+   compared with a snapshot taken before the call, except the target slot */
+typedef struct { uint8_t *base; size_t elem, total; } ObjArr;
+#define NOBJARR 11
+static void obj_arrays(ObjArr *a)
+{
+#define OA(i, arr) a[i].base = (uint8_t *)(arr); a[i].elem = sizeof((arr)[0]); a[i].total = sizeof(arr)
+    OA(0, k128); OA(1, k64); OA(2, t128); OA(3, t64); OA(4, mk);
+    OA(5, c128); OA(6, c64); OA(7, cm); OA(8, p128); OA(9, p64); OA(10, pm);
+#undef OA
+}
+static __thread uint8_t *objsnap;
+static void objects_snapshot(void)
+{
+    ObjArr a[NOBJARR]; size_t off = 0, tot = 0;
+    obj_arrays(a);
+    for (int i = 0; i < NOBJARR; i++) tot += a[i].total;
+    if (!objsnap) objsnap = __real_calloc(1, tot);
+    for (int i = 0; i < NOBJARR; i++) { memcpy(objsnap + off, a[i].base, a[i].total); off += a[i].total; }
+}
+static int target_array(void);
+/* while the library runs, every slot other than the target is xored with 0xA5, so
+   that an overrun shows even where the neighbours hold the same bytes it writes
+   (all-zero handles next to a cleanse) */
+static void objects_mask(void)
+{
+    ObjArr a[NOBJARR];
+    int ta = target_array(), to = is_null("o") ? -1 : (int)argi("o", 0);
+    obj_arrays(a);
+    for (int i = 0; i < NOBJARR; i++)
+        for (size_t j = 0; j < a[i].total; j++) {
+            if (i == ta && to >= 0 && j / a[i].elem == (size_t)to) continue;
+            a[i].base[j] ^= 0xA5;
+        }
+    objs_masked = !objs_masked;
+}
+static int target_array(void)
+{
+    const char *k = arg("k");
+    int is128 = k && !strcmp(k, "s128"), is64 = k && !strcmp(k, "s64");
+    if (!strncmp(opname, "ks_", 3)) {
+        int tw = (int)argi("t", 0) || !strcmp(opname, "ks_set_tweaked_key") || !strcmp(opname, "ks_set_tweak");
+        return is128 ? (tw ? 2 : 0) : (tw ? 3 : 1);
+    }
+    if (!strncmp(opname, "mk_", 3)) return 4;
+    if (!strncmp(opname, "ctr_", 4)) return is128 ? 5 : is64 ? 6 : 7;
+    if (!strncmp(opname, "par_", 4)) return is128 ? 8 : is64 ? 9 : 10;
+    return -1;
+}
+static long objects_stray(void)
+{
+    ObjArr a[NOBJARR]; size_t off = 0; long n = 0;
+    int ta = target_array(), to = is_null("o") ? -1 : (int)argi("o", 0);
+    if (!objsnap) return 0;
+    obj_arrays(a);
+    for (int i = 0; i < NOBJARR; i++) {
+        for (size_t j = 0; j < a[i].total; j++) {
+            if (i == ta && to >= 0 && j / a[i].elem == (size_t)to) continue;
+            if (a[i].base[j] != objsnap[off + j]) n++;
+        }
+        off += a[i].total;
+    }
+    return n;
 }
 
 /* Objects shared read-only between threads (C18): a copy of the main thread's
@@ -392,6 +461,7 @@ static void call_begin(void)
     c_na = c_nf = c_nz = c_badfree = c_fz = 0;
     fail_hit = 0;
     arenas_snapshot();
+    if (!fast_mode) { objects_snapshot(); objects_mask(); }
     paint_stack();
     in_lib = 1;
     drv_mark_begin();
@@ -400,12 +470,13 @@ static void call_end(void)
 {
     drv_mark_end();
     in_lib = 0;
+    if (objs_masked) objects_mask();
 }
 static void log_alloc(const uint8_t *out, size_t outlen)
 {
     jint("na", c_na); jint("nf", c_nf); jint("nz", c_nz);
     jint("badfree", c_badfree + c_fz); jint("lv", live_blocks);
-    jint("stray", arenas_stray(out, outlen));
+    jint("stray", arenas_stray(out, outlen) + (fast_mode ? 0 : objects_stray()));
 }
 
 static char pl_mode(const char *name)
@@ -648,6 +719,9 @@ static void do_ctr(void)
         if (pf && obj) {
             memset(obj, (int)strtol(pf, NULL, 0), sizeof(Skinny128CTR_t));
             jint("prefill", strtol(pf, NULL, 0));
+        } else if (paint >= 0 && obj && ctxp && !*ctxp) {
+            /* painting mode (C11): a handle that does not own a context holds arbitrary caller bytes */
+            memset(obj, paint == 256 ? 0xC3 : paint, sizeof(Skinny128CTR_t));
         }
         set_cap();
         if (arg("cap")) jint("cap", argi("cap", 2));
@@ -767,6 +841,8 @@ static void do_par(void)
         if (pf && obj) {
             memset(obj, (int)strtol(pf, NULL, 0), sizeof(Skinny128ParallelECB_t));
             jint("prefill", strtol(pf, NULL, 0));
+        } else if (paint >= 0 && obj && !argi("sh", 0) && !h->ctx) {
+            memset(obj, paint == 256 ? 0xC3 : paint, sizeof(Skinny128ParallelECB_t));
         }
         set_cap();
         if (arg("cap")) jint("cap", argi("cap", 2));
